@@ -106,8 +106,10 @@ def gen_case(rng, pid, tier):
     nshards = rng.randint(1, 4)
     ninst = rng.randint(1, 8)
     insts = []
+    # shard = instance number mod 256, named in upper-case hex: shards with and without hex letters
+    shard_pool = rng.sample([0, 1, 2, 3, 9, 10, 11, 15, 26, 43, 160, 171, 254, 255], nshards)
     for i in range(ninst):
-        iid = rng.randrange(nshards) + 256 * rng.randrange(0, 40)
+        iid = rng.choice(shard_pool) + 256 * rng.randrange(0, 40)
         name = '%s#%010d' % (rng.choice(['p.a', 'p.a', 'q.web-1']), iid)
         if name not in insts:
             insts.append(name)
